@@ -1158,12 +1158,43 @@ func (e *Env) lenGuarded(fd *ast.FuncDecl, at ast.Node, base ast.Expr, k string)
 	if !ok {
 		return false
 	}
+	// short-circuit operators: inside the right operand of `A && B` A holds, inside that of
+	// `A || B` it does not
+	ast.Inspect(fd.Body, func(m ast.Node) bool {
+		be, ok := m.(*ast.BinaryExpr)
+		if !ok || (be.Op != token.LAND && be.Op != token.LOR) || !(be.Y.Pos() <= at.Pos() && at.End() <= be.Y.End()) {
+			return true
+		}
+		left := c.ExprStr(be.X)
+		if be.Op == token.LOR {
+			neg := ""
+			if cmp, ok := ast.Unparen(be.X).(*ast.BinaryExpr); ok {
+				flip := map[token.Token]string{token.NEQ: "==", token.EQL: "!=", token.LSS: ">=", token.GEQ: "<", token.GTR: "<=", token.LEQ: ">"}
+				if op, ok := flip[cmp.Op]; ok {
+					neg = c.ExprStr(cmp.X) + " " + op + " " + c.ExprStr(cmp.Y)
+				}
+			}
+			if neg == "" {
+				return true
+			}
+			left = neg
+		}
+		if cond == "" {
+			cond = left
+		} else {
+			cond = cond + " && " + left
+		}
+		return true
+	})
 	l := "len(" + c.ExprStr(base) + ")"
 	kn := 0
 	fmt.Sscan(k, &kn)
 	want := map[string]bool{
 		fmt.Sprintf("%s > %d", l, kn):    true,
 		fmt.Sprintf("%s >= %d", l, kn+1): true,
+	}
+	for m := kn + 1; m <= kn+8; m++ {
+		want[fmt.Sprintf("%s == %d", l, m)] = true // exactly m > k elements
 	}
 	if kn == 0 {
 		want[l+" != 0"] = true
